@@ -5,6 +5,7 @@ import (
 	"go/ast"
 	"go/token"
 	"regexp"
+	"sort"
 	"strings"
 
 	"golang.org/x/tools/go/packages"
@@ -96,6 +97,7 @@ func checkC05(c *Ctx) {
 	ev, _, gen := c.evalTemplates("")
 
 	checkJSONKeys(c, ev, gen)
+	checkNumberFormats(c, "C05.R1.number-formats", gen)
 	c.Rule("C05.R2.coverage", "each serializer reads and writes every declared property, member, item and additional value", 27)
 	checkEmitRules(c, "C05.R2.coverage", ev, serializerRules)
 	checkSerializerPairs(c, ev)
@@ -632,4 +634,43 @@ func checkSingleSuccessExit(c *Ctx, rule string, ev *tmpl.Evaluator) {
 		}
 	}
 	c.Analysed("success exits of generated (un)marshallers", n)
+}
+
+// checkNumberFormats: JSON Schema writes every number with `type: number` or `type: integer`;
+// specs that say `type: number, format: int64` mean a 64-bit integer. The format table gives such
+// a property the Go type the integer table gives the same format: with float64 instead, values
+// above 2^53 come back changed from a decode / encode round trip.
+func checkNumberFormats(c *Ctx, rule string, gen *packages.Package) {
+	c.Rule(rule, "formatMapping[\"number\"] gives every integer format the Go type formatMapping[\"integer\"] gives it", 10)
+	fm := load.PkgVarValue(gen, "formatMapping")
+	if fm == nil {
+		c.Anchor(rule, "generator.formatMapping", "not found")
+		return
+	}
+	tab := map[string]map[string]string{}
+	for _, outer := range goan.Rows(fm) {
+		ok, _ := goan.StringVal(gen.TypesInfo, outer.Key)
+		tab[ok] = map[string]string{}
+		for _, r := range goan.Rows(outer.Val) {
+			ik, _ := goan.StringVal(gen.TypesInfo, r.Key)
+			if v, isStr := goan.StringVal(gen.TypesInfo, r.Val); isStr {
+				tab[ok][ik] = v
+			}
+		}
+	}
+	if len(tab["integer"]) == 0 {
+		c.Anchor(rule, "generator.formatMapping[\"integer\"]", "no rows")
+		return
+	}
+	var fmts []string
+	for f := range tab["integer"] {
+		fmts = append(fmts, f)
+	}
+	sort.Strings(fmts)
+	for _, f := range fmts {
+		want := tab["integer"][f]
+		got := tab["number"][f]
+		c.Check(got == want, rule, "generator.formatMapping › number."+f, c.posOf(gen, fm.Pos()), want,
+			fmt.Sprintf("`type: number, format: %s` is given the Go type %q (no row: float64), `type: integer, format: %s` gets %s: an integer above 2^53 written in a property declared the first way is rounded when the document is decoded and encoded again", f, got, f, want))
+	}
 }
